@@ -268,7 +268,7 @@ def run(ctx, out, budget):
             out.oracle_failures.append({"scenario": {"k": "session", "ops": ops}, "what": "re-emission of a loaded type system is not byte-identical"})
 
 
-CORPUS_PRESTRIP = True
+CORPUS_PRESTRIP = False   # the model strips every descriptor text itself since the repair of TsXml.normalize
 
 
 def run_corpus(ctx, out, budget):
@@ -287,9 +287,8 @@ def run_corpus(ctx, out, budget):
         if any(t["name"] is None or t["super"] is None for t in desc):
             continue       # e.g. a declaration without supertypeName: not expressible in the abstract descriptor
         if CORPUS_PRESTRIP:
-            # MODEL GAP (repair pending): the code strips EVERY text of a descriptor (`_get_elem_as_str`), the model only
-            # descriptions; dkpro-core-types.xml carries an element type followed by a line break.  Until `TsXml.normalize` strips
-            # names as well, the names are stripped here, i.e. the strip of names is validated by nothing but this comment.
+            # (kept for bisecting: before the repair of `TsXml.normalize` the model stripped descriptions only and answered KeyError
+            #  on dkpro-core-types.xml, which carries an element type followed by a line break)
             for t in desc:
                 t["name"] = t["name"].strip(); t["super"] = t["super"].strip()
                 for fd_ in t["feats"]:
